@@ -118,6 +118,23 @@ Proof.
       unfold r_del. destruct (r_exists ueqb (rs_kv s) tt); simpl; auto.
     + eapply until_upd; eauto. intros t Hu. simpl in Hu. eapply U; eauto. eapply nth_error_In; eauto.
     + intros j Hj. apply inside_upd_other; auto.
+  - (* RTryLost *)
+    rinv2 H c Hc.
+    assert (Hne : forall j, In j ins -> j <> i).
+    { intros j Hj E; subst j. destruct (I i Hj) as (c0 & Hc0 & Hp0 & _).
+      rewrite Hc in Hc0. inversion Hc0; subst c0. rewrite Hp0 in H. discriminate. }
+    assert (H' : (let '(okb, kv') := r_setnx ueqb (rs_kv s) tt (r_tok c) (Some (r_ttl c)) in
+                  rwith s i kv' (mkR (RFailed RDeadline) (r_tok c) (r_ttl c) (r_dead c)
+                     (if okb then (if Z.ltb 0 (r_ttl c) then Some (r_now (rs_kv s) + r_ttl c) else None) else r_until c)
+                     false (r_ctx c))) = Some s').
+    { destruct (r_pc c); try discriminate; exact H. }
+    clear H. unfold r_setnx in H'. destruct (r_exists ueqb (rs_kv s) tt);
+      unfold rwith in H'; inversion H'; subst s'; apply mkRpinv; cbn [rs_kv rs_cs]; auto.
+    + eapply until_upd; eauto. intros t Hu. simpl in Hu. eapply U; eauto. eapply nth_error_In; eauto.
+    + intros j Hj. apply inside_upd_other; auto.
+    + eapply until_upd; eauto. intros t Hu. simpl in Hu.
+      destruct (Z.ltb 0 (r_ttl c)) eqn:T; [|discriminate]. apply Z.ltb_lt in T. inversion Hu. rewrite N. lia.
+    + intros j Hj. apply inside_upd_other; auto.
 Qed.
 
 Lemma rpinv_weaken : forall ins ins' s, (forall i, In i ins' -> In i ins) -> rpinv ins s -> rpinv ins' s.
